@@ -69,5 +69,6 @@ package adapter
 //@   requires[inv] a != nil && a.bankKeeper != nil
 //@   modifies bank
 //@   ensures[C18,C11] bal(old(bank), core.ModuleAddress, denom) == 0 ==> err == nil
+//@   ensures[C11] err == nil
 //@   ensures[C01,C02,C11] err == nil ==> bank == moveIf(bal(old(bank), core.ModuleAddress, denom) > 0, old(bank), core.ModuleAddress, moduleAddr(core.DustCollectorName), denom, bal(old(bank), core.ModuleAddress, denom))
 //@   ensures[C03,C07,C18] err != nil ==> bank == old(bank)
